@@ -22,7 +22,7 @@ def main():
     build_harness()
     total_states = 0; cases = []
     for cfg, stride in (("Includes.cfg", 40 if c.quick else 1), ("Includes2.cfg", 40 if c.quick else 2)):
-        r = run_tlc("includes", "Includes", cfg, workers=8, timeout=2400, xss="512m", cache_key="inc", keep_tags={"CASE"}, xmx="16g")
+        r = run_tlc("includes", "Includes", cfg, workers=8, timeout=2400, xss="512m", cache_key="inc2", keep_tags={"CASE"}, xmx="16g")
         if not r.ok:
             c.report({"kind": "tlc", "what": f"Includes does not satisfy IncludeSem ({cfg}): {r.violated} {r.error_text}", "tail": r.raw_tail[-600:]})
             continue
